@@ -10,13 +10,23 @@ from harness.modular import gen_modular, modular_spec, inlined_spec
 class C12(Check):
     PID = 'C12'
     SHRINK = False
-    RULE = ('the modular programs of C09 (1-4 named sub-specifications, nested, repeated, with constants); after offline evaluate() and after every online '
+    RULE = ('the modular programs of C09 (1-4 named sub-specifications, nested, repeated, with constants) plus a named sub-specification / variable directly below every bounded operator with a window longer than the trace; after offline evaluate() and after every online '
             'update() (pastified when the program has bounded-future operators) get_value of every assertion / sub-specification name is compared with a '
             'stand-alone specification of the inlined formula bound to that name (pastified too), and get_value of every variable with the supplied data; '
             'also against rho; non-trivial = >= 2 names and a stateful named formula; distinct by (program, data)')
 
     def gen_cases(self, rng, tier):
-        return gen_modular(rng, tier, 200, 3000)
+        cases = gen_modular(rng, tier, 200, 3000)
+        # a named sub-specification / a variable directly below every bounded operator whose window is longer than the trace (the evaluators pad
+        # the operand there: the padding must not show in the value of the name or in the caller's data)
+        P = ('pred', 'geq', ('var', 0), ('const', 1))
+        for op in ('evt', 'alwt', 'oncet', 'histt', 'untilt', 'sincet'):
+            for sub in (P, ('var', 0), ('a1', 'neg', ('var', 0))):
+                for (b, e, n) in ((0, 6, 3), (2, 9, 4), (1, 1, 1)):
+                    mk = (lambda r: (op, b, e, r)) if op in fml.TUN else (lambda r: (op, b, e, r, ('var', 1)))
+                    cases.append({'f': mk(sub), 'n': n, 'nv': 2, 'cols': fml.gen_trace(rng, 2, n), 'times': list(range(n)),
+                                  'subs': [['sp1', sub, sub]], 'main': mk(('ref', 'sp1')), 'consts': [], 'style': rng.choice(['add_sub_spec', 'one_text'])})
+        return cases
 
     def load_case(self, c):
         c = Check.load_case(self, c)
